@@ -100,8 +100,40 @@ def r1_def_ident(c, facts):
                 for s in blk['stmts']:
                     if s['s'] == 'assign' and s['rv']['r'] == 'ref':
                         used |= set(MF.field_path(s['rv']['place']))
-            if {'loc', 'index'} <= used:
-                c.ok(R, {'External == External': 'compares module locator and node index'})
+            # each field of self is compared with the same field of other
+            ef = eqf[0]
+            eidx = MF.defs_index(ef)
+
+            def srcs(op):
+                if 'l' not in op:
+                    return set()
+                out = set(MF.field_sources(ef, op['l'], eidx))
+                if 1 <= op['l'] <= ef.mir['argc']:
+                    out.add((op['l'], tuple(x for x in MF.field_path(op) if not x.startswith('<'))))
+                return out
+            crossed, same = set(), set()
+            pairs = []
+            for b, t in ef.calls():
+                info = callee_of(t)
+                if info and (info['def'].endswith('PartialEq::eq') or info['def'].endswith('PartialEq::ne')) and len(t['args']) == 2:
+                    pairs.append((srcs(t['args'][0]), srcs(t['args'][1])))
+            for b, blk in ef.blocks(cleanup=False):
+                for st in blk['stmts']:
+                    if st['s'] == 'assign' and st['rv']['r'] == 'binop' and st['rv'].get('op') in ('Eq', 'Ne'):
+                        ops = st['rv'].get('ops') or [st['rv'].get('l'), st['rv'].get('r')]
+                        if len(ops) == 2 and all(isinstance(o, dict) for o in ops):
+                            pairs.append((srcs(ops[0]), srcs(ops[1])))
+            for a_, b_ in pairs:
+                for (ra, pa) in a_:
+                    for (rb, pb) in b_:
+                        if pa and pa == pb and pa[0] in ('loc', 'index'):
+                            (crossed if ra != rb else same).add(pa[0])
+            if {'loc', 'index'} <= used and same - crossed:
+                c.bad(R, 'external-eq-self-compare:%s' % ','.join(sorted(same - crossed)), 'External equality compares the field %s of one operand with itself: definitions that differ only there are conflated (a declaration of another module with the same node index is "the same definition")' % sorted(same - crossed))
+            elif {'loc', 'index'} <= used and pairs and not {'loc', 'index'} <= crossed:
+                c.bad(R, 'external-eq-fields-not-paired:%s' % ','.join(sorted({'loc', 'index'} - crossed)), 'External equality does not compare %s of self with the same field of other' % sorted({'loc', 'index'} - crossed))
+            elif {'loc', 'index'} <= used:
+                c.ok(R, {'External == External': 'compares module locator and node index', 'paired': sorted(crossed)})
             else:
                 c.bad(R, 'external-eq-partial:%s' % ','.join(sorted(used)), 'External equality compares only %s: definitions in different modules (or nodes) are conflated' % sorted(used))
         else:
@@ -233,7 +265,77 @@ def r4_refs_unfiltered(c, facts):
         c.ok(R, {'references': 'the collected locations are returned as they are'})
 
 
+def r5_cursor_half_open(c, facts, rule='C17.R5'):
+    """spans are half-open byte ranges: the position just past an identifier is not on it (it may be on the next one:
+    `a&b`), so the cursor test is `start <= i < end`"""
+    R = c.rule(rule, 'CURSOR: a position is on a node exactly when start <= offset < end of its span')
+    fn = c.anchor(R, 'oal_client::lsp::handlers::syntax_at')
+    fam = [fn] + list(facts.closures_of(fn))
+    tests = []
+    for g in fam:
+        if not g.mir:
+            continue
+        for b, t in g.calls():
+            info = callee_of(t)
+            if not info:
+                continue
+            d = P.strip(info['def'])
+            nm = d.split('::')[-1]
+            if nm == 'contains' and ('ops::Range::' in d or 'RangeBounds' in d) and 'RangeInclusive' not in (info.get('self_ty') or '') and 'RangeInclusive' not in d:
+                st = info.get('self_ty') or ''
+                tests.append(('range', st))
+            elif nm == 'contains' and 'RangeInclusive' in ((info.get('self_ty') or '') + d):
+                tests.append(('inclusive', d))
+            elif (info.get('crate') or '').startswith('oal_') and 'bool' in (t['dest'].get('ty') or '') and nm not in ('eq', 'ne'):
+                h = facts.fns.get(info.get('resolved_id') or info.get('id'))
+                tests.append(('helper', h))
+        for _, blk in g.blocks():
+            for st in blk['stmts']:
+                if st['s'] == 'assign' and st['rv']['r'] == 'binop' and st['rv'].get('op') in ('Le', 'Ge', 'Lt', 'Gt') and not st.get('exp'):
+                    tests.append(('cmp', (g, st)))
+    c.floor(R, 'cursor tests in syntax_at', len(tests), 1)
+
+    def cmp_ok(g, st):
+        """a comparison involving the `end` of a span must be strict"""
+        idx = MF.defs_index(g)
+        rv = st['rv']
+        sides = [rv.get('a'), rv.get('b')]
+        names = []
+        for o in sides:
+            if not o or 'l' not in o:
+                names.append(set())
+                continue
+            fp = set(MF.field_path(o))
+            sl = MF.slice_back(g, o['l'], idx)
+            fp |= {P.strip(n).split('::')[-1] for n, _, _ in sl['calls']}
+            for l in sl['locals']:
+                for k, _, x in idx.get(l, []):
+                    if k == 'assign' and x['rv']['r'] in ('use', 'ref'):
+                        src = x['rv'].get('op') or x['rv'].get('place')
+                        fp |= set(MF.field_path(src)) if src and 'proj' in src else set()
+            names.append(fp)
+        if not any('end' in n for n in names):
+            return True
+        return rv['op'] in ('Lt', 'Gt')
+    bad = False
+    for kind, x in tests:
+        if kind == 'inclusive':
+            bad = True
+        elif kind == 'cmp' and not cmp_ok(*x):
+            bad = True
+        elif kind == 'helper' and x is not None and x.mir:
+            for _, blk in x.blocks():
+                for st in blk['stmts']:
+                    if st['s'] == 'assign' and st['rv']['r'] == 'binop' and st['rv'].get('op') in ('Le', 'Ge', 'Lt', 'Gt') and not cmp_ok(x, st):
+                        bad = True
+    if bad:
+        c.bad(R, 'syntax_at:cursor-test-includes-end', 'syntax_at counts the offset at the end of a span as inside it: the position just past an identifier (a `;`, a `.`, the next token) resolves to that identifier, and any column to the right of a line ending in one does too')
+    else:
+        c.ok(R, {'syntax_at': 'half-open test', 'tests': [k for k, _ in tests]})
+
+
 def run(c, facts):
+    c.run(r5_cursor_half_open, facts)
     c.run(r4_refs_unfiltered, facts)
     c.run(r3_fresh_and_units, facts)
     c.run(r1_def_ident, facts)
